@@ -65,7 +65,7 @@ theorem C12_placement (key : List Nat) (n : Nat) :
 theorem C12_placed {kt : KeyType} {s : Store} (h : Store.Inv kt s) (o sz : Nat) (r : KeyRec)
     (hu : s.kf.used o = some (sz, r)) :
     ∃ l, s.chain (bucketOf r.key s.n) = some l ∧ (o, r) ∈ l := by
-  sorry
+  exact h.on_chain o sz r hu (Store.used_ne_zero h hu)
 
 /-- what is written now is readable by a reader that knows only the documented layout -/
 theorem C12_readable {kt : KeyType} {s : Store} (h : Store.Inv kt s) (hr : Store.Renderable kt s) :
